@@ -266,6 +266,29 @@ def run(ctx):
         for k, v in forms.items():
             if v.to_list() != want or len(v) != len(ds) or v.to_string() != " ".join(want):
                 res.violation(f"DaughtersDict from {k} differs", case, impl=v.to_list(), clause="final states")
+        # the same final state reached step by step (the mapping interface of the class): built from a prefix, the rest added in place
+        if len(ds) >= 2:
+            k = rng.randint(0, len(perm) - 1)
+            grown = DaughtersDict(perm[:k])
+            for j, x in enumerate(perm[k:]):
+                how = (j + i) % 3
+                if how == 0:
+                    grown[x] += 1
+                elif how == 1:
+                    grown.update([x])
+                else:
+                    grown += DaughtersDict([x])
+            if grown.to_list() != want or grown.to_string() != " ".join(want) or len(grown) != len(ds) or grown != forms["list"]:
+                res.violation("a final state grown in place is not reported in the canonical order / differs from the one built at once",
+                              dict(case, built_from=perm[:k], added=perm[k:]), impl=grown.to_list(), model=want, clause="final states: canonical order")
+            dm = DecayMode(0.5, perm[:k])
+            for x in perm[k:]:
+                dm.daughters[x] += 1
+            d2 = dm.to_dict()
+            if d2.get("fs") != want or DecayMode.from_dict(d2).to_dict() != d2:
+                res.violation("a decay mode whose final state was grown in place does not round-trip / is not in canonical order",
+                              dict(case, built_from=perm[:k], added=perm[k:]), impl=d2.get("fs"), model=want, clause="mode round trip")
+            res.count("grown_in_place")
         res.case(canon_json(sorted(ds)) if len(ds) != len(set(ds)) else None, case if i < 2 else None)
         res.count("final_states")
 
